@@ -447,10 +447,11 @@ func remarshalOracle(pc *gen.PayloadCase, ss *gen.SchemaSpec, res jsonapi.Resour
 				return bad
 			}
 		case a.Type == jsonapi.AttrTypeBytes:
-			s, _ := got.(string)
+			// A string again (the empty byte string is "", not null).
+			s, isStr := got.(string)
 
 			b, err := base64.StdEncoding.DecodeString(s)
-			if err != nil || !bytes.Equal(b, l.Bytes) {
+			if !isStr || err != nil || !bytes.Equal(b, l.Bytes) {
 				return bad
 			}
 		default:
